@@ -736,7 +736,15 @@ fn check_main(
         return 2;
     }
     if report.evaluations == 0 {
-        eprintln!("harness error: nothing was evaluated");
+        if !inconclusive.is_empty() {
+            eprintln!(
+                "no verdict: nothing could be evaluated ({} inconclusive worker deaths / hangs that are not attributable to {})",
+                inconclusive.len(),
+                prop
+            );
+        } else {
+            eprintln!("harness error: nothing was evaluated");
+        }
         return 2;
     }
     if std::env::var("ELFSIM_FAIL_ON_REACH_WARNING").is_ok() && !reach_warnings_text.is_empty() {
